@@ -683,6 +683,34 @@ def duplicated_hook_sites(out_view):
     return len(acc) != len(set(acc))
 
 
+def duplicate_site_location(in_view, out_view):
+    """where do the duplicated hook sites come from?  'add-assign-target' when every duplicated site lies in the target
+    of a `+=` in the input (the known cloning of the target), else 'elsewhere'"""
+    acc = []
+    hook_spans(out_view, acc)
+    dups = set(x[1] for x in acc if acc.count(x) > 1)
+    if in_view is None:
+        return 'unknown'
+    target_spans = set()
+
+    def scan(v):
+        if isinstance(v, (list, tuple)):
+            for x in v:
+                scan(x)
+            return
+        if not isinstance(v, dict) or is_lazy(v):
+            return
+        if v.get('_t') == 'Expr' and kind(v) == 'Assign':
+            a = payload(v)
+            if leaf_eq(a['op']['_d'], ADD_ASSIGN) is not False:
+                spans_in(a['left'], target_spans)
+        for x in v.values():
+            scan(x)
+
+    scan(in_view)
+    return 'add-assign-target' if dups and all(d in target_spans for d in dups) else 'elsewhere'
+
+
 def modified_without_hook_cause(in_view, out_view):
     """why is a file Modified without a hook?  (role suffix)"""
     found = []
@@ -762,7 +790,7 @@ def check_C15_C12(out_view, status_view, nhooks, in_view=None):
                 if isinstance(cnt, int):
                     role = 'count/over-reported' if cnt > nhooks else 'count/under-reported'
                     if cnt < nhooks and duplicated_hook_sites(out_view):
-                        role += ':duplicated-hook-site'
+                        role += ':duplicated-hook-site:' + duplicate_site_location(in_view, out_view)
                 else:
                     role = 'count/differs'
                 out.append(Violation('C15', role, neg(c), 'reported %s, %d hook call sites emitted' % (cnt, nhooks)))
@@ -1303,6 +1331,15 @@ def check_C04(in_view, out_view, er, erased, cfg_terms):
                             tags = [hook_tag(er, h) for h in er.hooks]
                             has = z_or([leaf_eq(t, name) for t in tags if t is not None])
                             nonopt = neg(p['optional']) if not isinstance(p['optional'], bool) else (not p['optional'])
+                            # receivers that are a `.prototype` object are a documented exclusion
+                            robj = payload(cal)['base']['_0']['obj']
+                            rm = None
+                            if not is_lazy(robj) and kind(robj) == 'Member':
+                                rm = payload(robj)
+                            elif not is_lazy(robj) and kind(robj) == 'OptChain' and not is_lazy(payload(robj)['base']) and payload(robj)['base'].get('_v') == 'Member':
+                                rm = payload(robj)['base']['_0']
+                            if rm is not None and not is_lazy(rm['prop']) and rm['prop'].get('_v') == 'Ident':
+                                nonopt = conj([nonopt, neg(leaf_eq(rm['prop']['_0']['sym'], 'prototype'))])
                             role = 'uninstrumented:optional-chain-method:%s' % where
                             if role not in seen:
                                 cnd = conj([method_configured(cfg_terms, name), nonopt, neg(has)])
@@ -1764,9 +1801,9 @@ def hook_tag(er, h):
     return None
 
 
-def check_C15_debug(er, status_view, out_view=None):
+def check_C15_debug(er, status_view, out_view=None, in_view=None):
     out = []
-    dup = ':duplicated-hook-site' if (out_view is not None and duplicated_hook_sites(out_view)) else ''
+    dup = (':duplicated-hook-site:' + duplicate_site_location(in_view, out_view)) if (out_view is not None and duplicated_hook_sites(out_view)) else ''
     tel = status_view['telemetry']
     if tel.get('_v') != 'Debug':
         return out
